@@ -10,7 +10,7 @@
   other goroutine of the test binary touches the directories, and the actual interleavings of the
   real goroutines are measured by the correspondence run (harness/cmd/tslife), not proved.
 -/
-import GIV.Lemmas.TsLifeGrace
+import GIV.Lemmas.TsLifeEnv
 import GIV.Lemmas.TsLifeRef
 import GIV.Lemmas.TsLifeRun
 import GIV.Lemmas.TsLifeUnpack
